@@ -78,6 +78,25 @@ def install():
 
     C._PATCH_REGISTRATIONS[str.__mod__] = _fmt
 
+    # concrete_bytes.startswith(<symbolic bytes>) reaches the C implementation with a proxy argument (TypeError ->
+    # "proxy intolerance" -> undecidable path).  Model: slice-and-compare, which CrossHair keeps symbolic.
+    def _bytes_startswith(self, prefix, start=None, end=None):
+        with NoTracing():
+            native = type(self) is bytes and (
+                type(prefix) is bytes or (type(prefix) is tuple and all(type(p) is bytes for p in prefix)))
+            if native:
+                return bytes.startswith(self, prefix, start, end) if start is not None or end is not None \
+                    else bytes.startswith(self, prefix)
+        if start is not None or end is not None:
+            self = self[start:end]
+        for p in (prefix if isinstance(prefix, tuple) else (prefix,)):
+            n = len(p)
+            if n <= len(self) and self[:n] == p:
+                return True
+        return False
+
+    C._PATCH_REGISTRATIONS[bytes.startswith] = _bytes_startswith
+
     # CrossHair's "premature realization" search heuristic (make_concrete_or_symbolic) opens, for every
     # int/bool/str argument, a parallel branch in which the value is enumerated one by one *before* the
     # preconditions apply.  It never contributes to exhaustion and (measured on C17) eats >95% of the
